@@ -286,6 +286,7 @@ func (c *caseT) knownCase(rec *ev.Rec, prop string) bool {
 	}
 	return check("where-over-summarize-shadow", shadowSumUnderWhere(c.tq.q, nil, false)) ||
 		check("summarize-shadow-requirement", hasShadowSummarize(c.tq.q)) ||
+		check("summarize-wholerow-inside", wholeRowInside(c.tq.q, true)) ||
 		check("summarize-wholerow-after-project", wholeRowFlips(c.tq.q, false)) ||
 		check("unique-index-empty-value", c.emptyUniqueRow()) ||
 		check("or-with-empty-range", orWithEmptyTerm(c.tq.q))
